@@ -127,9 +127,11 @@ impl Out {
   }
 }
 
-pub fn read_drivers(path: &str) -> Vec<Value> {
+/// The drivers from line `skip` on (one per line; the lines before are not even parsed: restarts are cheap).
+pub fn read_drivers(path: &str, skip: usize) -> Vec<Value> {
   let s = std::fs::read_to_string(path).expect("read drivers");
   s.lines()
+    .skip(skip)
     .filter(|l| !l.trim().is_empty())
     .map(|l| serde_json::from_str(l).expect("driver json"))
     .collect()
